@@ -3,7 +3,7 @@
    Position.Equal" holds by computation - and the game theorems apply to the three calls. *)
 From Coq Require Import NArith ZArith List Bool Lia.
 Require Import Board Move GameOver Eval EvalSpec Refine Alloc Preserve1 Reach1 PreserveEx Search NegamaxSpec SearchGen SearchExact SearchInst SearchC CancelEx.
-Require Import SearchLegal2 SearchNeg2 SearchNeg3 SearchNeg5 SearchTable1 SearchTable3 SearchTable4 SearchTable5 SearchTable6 SearchTableEx.
+Require Import SearchLegal2 SearchNeg2 SearchNeg3 SearchNeg5 SearchTable1 SearchTable3 SearchTable4 SearchTable5 SearchTable6 SearchTable7 SearchTable8 SearchTableEx.
 Require Import Generated.Consts.
 Import ListNotations.
 Open Scope Z_scope.
@@ -43,4 +43,35 @@ Proof.
               (r_depth (snd run2)) (r_acc (snd run2)) (r_canceled (snd run2)) G1 P3 B3 askg_rootw E2 _). rewrite D2. exact P0.
   - refine (analyze_table_verdict_game 3 false 10 0 S3 S10 S64 Uex game_ex (fst run2) cfg2t 0 rootb (fst run3) (r_pv (snd run3)) (r_value (snd run3))
               (r_depth (snd run3)) (r_acc (snd run3)) (r_canceled (snd run3)) G2 P2 B2 askg_rootb E3 _). rewrite D3. exact P1.
+Qed.
+
+(* ---- soundness for a configuration that is NOT precise: slide reduction and multi-cut switched on, no null move (SearchTable7/8) ---- *)
+Definition cfgR := mk_cfg 3 false true false true 0.
+Definition runR1 := run_analyze cfgR 25 (new_state 64) rootw.
+Definition runR2 := run_analyze cfgR 0 (fst runR1) rootw.
+
+Lemma asks_rootw : ask_s cfgR Uex rootw.
+Proof. destruct ask_rootw as (A & B & C & D & _ & F). unfold ask_s. split; [exact A|]. split; [exact B|]. split; [exact C|]. split; [exact D|exact F]. Qed.
+
+Lemma runsR_obs : r_value (snd runR1) = 660 /\ r_canceled (snd runR1) = true /\ r_value (snd runR2) = 805307244 /\ r_depth (snd runR2) = 3.
+Proof. vm_compute. repeat split. Qed.
+
+Example sound_theorem_applies :
+  c_nonull cfgR = true /\ c_noreduce cfgR = false /\ c_multicut cfgR = true /\ ask_s cfgR Uex rootw /\
+  sound_verdict gen_basis rootw (r_value (snd runR2)) /\ WinThreshold < r_value (snd runR2) /\ (exists n, W gen_basis n rootw).
+Proof.
+  destruct runsR_obs as (_ & _ & V2 & _).
+  assert (BE : builtin_eval cfgR) by (right; reflexivity).
+  assert (E1 : analyze_cancel gen_basis cfgR 25 (new_state 64) rootw = (fst runR1, snd runR1))
+    by (unfold runR1, run_analyze; destruct (analyze_cancel gen_basis cfgR 25 (new_state 64) rootw); reflexivity).
+  assert (E2 : analyze_cancel gen_basis cfgR 0 (fst runR1) rootw =
+               (fst runR2, (r_pv (snd runR2), r_value (snd runR2), r_depth (snd runR2), r_acc (snd runR2), r_canceled (snd runR2)))).
+  { unfold runR2, run_analyze. destruct (analyze_cancel gen_basis cfgR 0 (fst runR1) rootw) as [s [[[[pv v] d] acc] c]]. reflexivity. }
+  pose proof (engsi_call Uex _ cfgR 25 rootw _ _ (engsi_new Uex 64) eq_refl BE asks_rootw E1) as G1.
+  assert (SV : sound_verdict gen_basis rootw (r_value (snd runR2))).
+  { exact (analyze_sound_any_inst Uex touch_ex (fst runR1) cfgR 0 rootw (fst runR2) (r_pv (snd runR2)) (r_value (snd runR2)) (r_depth (snd runR2))
+             (r_acc (snd runR2)) (r_canceled (snd runR2)) G1 eq_refl BE asks_rootw E2). }
+  assert (WT2 : WinThreshold < r_value (snd runR2)) by (rewrite V2; vm_compute; reflexivity).
+  split; [reflexivity|]. split; [reflexivity|]. split; [reflexivity|]. split; [exact asks_rootw|].
+  split; [exact SV|]. split; [exact WT2|]. apply SV. exact WT2.
 Qed.
